@@ -487,6 +487,28 @@ PORTS = [0, 1, 255, 256, 0x1234, 0xFF00, 0xFFFF]
 PAYLOADS = [b"", b"\x00", b"\xff", bytes((n * 7 + 1) % 256 for n in range(1200)), b"\x00" * 1200]
 
 
+
+def _socks_strip_via_protocol(data: bytes, near=("127.0.0.1", 50001)):
+    """What the proxy side strips from a viewer datagram, observed through the PUBLIC seam: a fresh UDPProxyProtocol gets the
+    datagram from the SOCKS client's address and hands a UDPPacket to its handle_proxied_packet() extension point.  No private
+    parser method is named, so internal renames of the parser do not matter.  Returns (far_addr, payload) or None."""
+    import hippolyzer.lib.proxy.socks_proxy as sp
+    got = []
+
+    class _Capture(sp.UDPProxyProtocol):
+        def handle_proxied_packet(self, packet):
+            got.append(packet)
+
+    proto = _Capture(near)
+    proto.datagram_received(data, near)
+    if len(got) != 1:
+        return None
+    pkt = got[0]
+    if pkt.direction != Direction.OUT or tuple(pkt.src_addr) != tuple(near):
+        return ("wrong-direction-or-source", pkt.direction.name, pkt.src_addr)
+    return (pkt.dst_addr[0], pkt.dst_addr[1]), bytes(pkt.data)
+
+
 def framing_case(addr: str, port: int, payload: bytes, near=("127.0.0.1", 1001)) -> List[Dict[str, str]]:
     import hippolyzer.lib.proxy.socks_proxy as sp
     out = []
@@ -495,7 +517,6 @@ def framing_case(addr: str, port: int, payload: bytes, near=("127.0.0.1", 1001))
         out.append({"clause": clause, "site": site, "detail": detail})
 
     far = (addr, port)
-    proto = sp.UDPProxyProtocol(("127.0.0.1", 50001))
     # proxy emits towards the viewer; reference strips
     emitted = SOCKS5UDPTransport.serialize(UDPPacket(far, near, payload, Direction.IN))
     un = U.socks_unwrap(bytes(emitted))
@@ -503,19 +524,19 @@ def framing_case(addr: str, port: int, payload: bytes, near=("127.0.0.1", 1001))
         bad("framing-emit", "SOCKS5UDPTransport.serialize", f"far={far} len={len(payload)}: reference strip gives {un and (un[0], un[2], len(un[1]))}")
     # reference (a viewer) emits; proxy strips
     try:
-        parsed = proto._parse_socks_datagram(U.socks_wrap(payload, far))
+        parsed = _socks_strip_via_protocol(U.socks_wrap(payload, far))
     except Exception as e:
         parsed = repr(e)
     if parsed != (far, payload):
-        bad("framing-parse", "UDPProxyProtocol._parse_socks_datagram", f"far={far} len={len(payload)}: parsed {str(parsed)[:120]}")
+        bad("framing-parse", "UDPProxyProtocol.datagram_received:socks-strip", f"far={far} len={len(payload)}: parsed {str(parsed)[:120]}")
     # what one side adds is exactly what the other strips (both directions of UDPPacket, header forced for outbound)
     for pkt in (UDPPacket(far, near, payload, Direction.IN), UDPPacket(near, far, payload, Direction.OUT)):
         try:
-            rt = proto._parse_socks_datagram(SOCKS5UDPTransport.serialize(pkt, force_socks_header=True))
+            rt = _socks_strip_via_protocol(bytes(SOCKS5UDPTransport.serialize(pkt, force_socks_header=True)))
         except Exception as e:
             rt = repr(e)
         if rt != (pkt.far_addr, payload):
-            bad("framing-inverse", "SOCKS5UDPTransport.serialize/_parse_socks_datagram",
+            bad("framing-inverse", "SOCKS5UDPTransport.serialize/UDPProxyProtocol.datagram_received",
                 f"{pkt.direction.name} far={far} len={len(payload)}: round trip gives {str(rt)[:120]}")
     plain = SOCKS5UDPTransport.serialize(UDPPacket(near, far, payload, Direction.OUT))
     if bytes(plain) != payload:
@@ -526,13 +547,12 @@ def framing_case(addr: str, port: int, payload: bytes, near=("127.0.0.1", 1001))
 def framing_domain_case(n: int, port: int, payload: bytes) -> List[Dict[str, str]]:
     import hippolyzer.lib.proxy.socks_proxy as sp
     name = bytes(97 + (k % 26) for k in range(n))
-    proto = sp.UDPProxyProtocol(("127.0.0.1", 50001))
     try:
-        parsed = proto._parse_socks_datagram(U.socks_wrap(payload, (name, port), atyp=3))
+        parsed = _socks_strip_via_protocol(U.socks_wrap(payload, (name, port), atyp=3))
     except Exception as e:
         parsed = repr(e)
     if parsed != ((name, port), payload):
-        return [{"clause": "framing-parse", "site": "UDPProxyProtocol._parse_socks_datagram:domain",
+        return [{"clause": "framing-parse", "site": "UDPProxyProtocol.datagram_received:socks-strip:domain",
                  "detail": f"domain len {n} port {port} payload {len(payload)}: parsed {str(parsed)[:120]}"}]
     return []
 
